@@ -254,7 +254,7 @@ static bool isNontrivial(const std::string& prop, const RunResult& r)
     if (prop == "C18")
         return has("multi-endpoint-history");
     if (prop == "C19")
-        return r.probes.count("preempted-inside-library") != 0;
+        return r.probes.count("preempted-inside-library") != 0 || r.probes.count("instances-interleaved-on-one-thread") != 0;
     if (prop == "C20")
         return r.probes.count("fill-differential") || r.probes.count("valgrind-run");
     return !r.probes.empty();
